@@ -62,3 +62,21 @@ def k_cap(tags):
     """limit_denominator(10**9) re-applied to intermediate points: a coordinate
     denominator times the node denominator raised to the degree exceeds 10**9."""
     return bool(tags.get("cap_exceeded"))
+
+
+@predicate("K-sliver")
+@for_props("C15")
+def k_sliver(tags):
+    """clean() raised, or did not re-unite the pieces, while the curve held a piece whose
+    length is below 2e-5 of the longest original segment: the union parameter is then
+    within ~1e-5 of 0/1 and pynurbs' knot removal fails."""
+    return bool(tags.get("clean_raised") or tags.get("clean_class")) and tags.get("min_adjacent_ratio", 1.0) < 2e-5
+
+
+@predicate("K-union-tol")
+@for_props("C15", "C07")
+def k_union_tol(tags):
+    """PlanarCurve.__or__ accepts a union whose *squared* L2 error is below 1e-9 (distance
+    up to ~3e-5): clean() on a curved boundary may unite a piece with a short piece of the
+    next (tangent-continuous) segment, moving a junction along the curve."""
+    return bool(tags.get("clean_class")) and bool(tags.get("curved_union_small_dev"))
